@@ -465,7 +465,7 @@ fn run_op(
                 }
             };
             set_act(Act::Build);
-            let r = pma::build_ordered_opt(&w.spec, &order, yield_hook, (t + i) % 2 == 1);
+            let r = pma::build_ordered_feed(&w.spec, &order, yield_hook, ((t + i) % 4) as u8);
             set_act(Act::Idle);
             match r {
                 Err(e) => fail(class, format!("thread {t} op {i}: build failed ({e}) although the single-threaded build succeeded")),
